@@ -4,6 +4,7 @@
     hoststab L=<tab>    the lookup tables `discovery.Hosts` builds from the accepted lines
     resolve b=<0|1> L=<tab> DN=<names> DA=<addrs> U=<e>:<H hex|N n> <payloadhex>
                         `Proxy.Resolve` on the query parsed from the payload
+    resolveseq … <payloadhex>,<payloadhex>…   the queries in order on ONE Proxy / hosts table; results joined by '|'
   Tables: `nil` (no resolver), `-` (empty) or entries joined by ';'.
     L  entry: <addr>@<namehex>,<namehex>…          (one accepted hosts line)
     DN entry: <keyhex>@<addr>,<addr>…              (discovery LookupHost table)
@@ -90,6 +91,23 @@ def stepLocal (toks : List String) : Option String :=
       | .done _ q =>
         let r := resolve { loc := loc.map buildHosts, disc := disc, bogus := bogus } q up
         pure s!"n={r.n} err={boolStr r.err} up={r.calls} buf={if r.n > 0 then toHexOrDash r.buf else "-"}"
+      ).getD "bad-op"
+  | ["resolveseq", b, l, dn, da, u, hs] =>
+    -- the queries in order on one Proxy: the model is a function of (tables, query), so each is
+    -- answered as if it were the only one
+    some <| (do
+      let bogus ← if b = "b=1" then some true else if b = "b=0" then some false else none
+      let loc ← (stripPrefix? l "L=").bind parseLocal
+      let disc ← do parseDisc (← stripPrefix? dn "DN=") (← stripPrefix? da "DA=")
+      let up ← (stripPrefix? u "U=").bind parseUp
+      let payloads ← (hs.splitOn ",").mapM ofHex
+      let outs := payloads.map fun payload =>
+        match parse payload with
+        | .outOfFuel => "out-of-fuel"
+        | .done _ q =>
+          let r := resolve { loc := loc.map buildHosts, disc := disc, bogus := bogus } q up
+          s!"n={r.n} err={boolStr r.err} up={r.calls} buf={if r.n > 0 then toHexOrDash r.buf else "-"}"
+      pure ("|".intercalate outs)
       ).getD "bad-op"
   | _ => none
 
